@@ -275,6 +275,17 @@ template <class T, size_t N, size_t M> struct Runner {
     void* buf = hbuf[d];
     switch (op.code) {
       case MK:
+        // every fourth construction is preceded by construction attempts that the value type rejects with an exception
+        // (bound not below the moduli; a list longer than the degree that is not degree*moduli): the handle does not
+        // come into existence, values are unaffected, and the storage obtained for it must have been released — the
+        // per-history allocation accounting below reports it otherwise
+        if ((mix(op.k, 17) & 3) == 0) {
+          try { new (buf) P(nfl::non_uniform(~0ULL)); reinterpret_cast<P*>(buf)->~P(); } catch (std::runtime_error const&) {}
+          try {
+            std::vector<T> v(P::degree + 1 == P::degree * P::nmoduli ? P::degree + 2 : P::degree + 1, (T)1);
+            new (buf) P(v.begin(), v.end()); reinterpret_cast<P*>(buf)->~P();
+          } catch (std::runtime_error const&) {}
+        }
         if (op.nsrc > 0) {
           const P &a = CH(op.src[0]), &b = CH(op.src[op.nsrc > 1 ? 1 : 0]), &c = CH(op.src[op.nsrc > 2 ? 2 : 0]);
           expr_form(op.sub, op.k, a, b, c, [&](auto const& e) { new (buf) P(e); });   // forwarding ctor, Args = expr
